@@ -368,6 +368,9 @@ def rule_offset_relative(ctx, rule="C20/offset-relative-to-copy"):
 
 
 def run(ctx):
+    # principal_mapping_address is resolved with find_mapping_no_bias: it has to be the order-independent scan (the mapping list is not address-sorted)
+    from rules import c06
+    c06.rule_find_mapping(ctx, R="C20/principal-lookup", fn="find_mapping_no_bias", system_range=True)
     rule_offset_relative(ctx)
     rule_range_siblings(ctx)
     rule_decision_shape(ctx)
